@@ -106,6 +106,7 @@ def plan(ctx):
                                bounds={'N': n, 'K': K, 'rule': c['cxx'], 'documented_expansion': low, 'outcomes': seen, 'variants': grp},
                                mem_gb=2, note='real %s vs documented expansion, over symbolic sub-rules' % c['cxx']))
     qs += byte_level(ctx, doc)
+    qs += subinput_policy(ctx)
     ctx.notes.append({'doc_clauses_used': doc.used})
     return qs
 
@@ -152,6 +153,25 @@ static void harness(void) {
 %(reach_fail)s
 }
 '''
+
+
+def subinput_policy(ctx):
+    """rematch<> / minus<> re-match on a sub-input that has to follow the same end-of-line policy (and source type) as the input it was cut from:
+    eol-sensitive rules inside the re-match rules, on inputs with a non-default policy"""
+    import leafgen
+    qs = []
+    for pol, ch in (('cr', "'\\r'"), ('lf', "'\\n'")):
+        it = 'tao::pegtl::memory_input< tao::pegtl::tracking_mode::eager, tao::pegtl::eol::%s, const char* >' % pol
+        cases = [
+            {'name': 'rematch_eol_' + pol, 'cxx': 'rematch< rep< 3, any >, seq< any, eol, any > >', 'cond': 'HAVE(3) && B(S + 1) == %s' % ch, 'len': '3', 'alphabet': 'a\\r\\n'},
+            {'name': 'minus_eol_' + pol, 'cxx': 'minus< rep< 2, any >, seq< eol, any > >', 'cond': 'HAVE(2) && B(S) != %s' % ch, 'len': '2', 'alphabet': 'a\\r\\n'},
+        ]
+        for c in cases:
+            unit = ctx.unit('c09_' + c['name'], text=leafgen.wrapper_text([c], input_t=it))
+            h = ctx.write('sp_%s.c' % c['name'], leafgen.harness_text(c, 4, defs='#define LF_EOL %s' % ch))
+            qs.append(vf.Query('subinput/%s' % c['name'], unit, h, unwind=7, mem_gb=2, bounds={'bytes': 4, 'rule': c['cxx'], 'input': 'eol::' + pol},
+                               note='eol-sensitive re-match rules under eol::%s: the sub-input keeps the policy of the outer input' % pol))
+    return qs
 
 
 def byte_level(ctx, doc):
